@@ -17,7 +17,11 @@ LENIENT = ['glob order is a choice of the specification: files whose keys coinci
            'sub-maps: required for directories on the way to an accepted file, allowed for every directory under (or '
            'leading to) a populating rule\'s directory; empty / filtered-out directories may or may not appear',
            'outside the domain: dot-files, a trimmed file key equal to a sibling directory, rule paths other than '
-           'plain relative names, parent/key back-links of maps (C11)']
+           'plain relative names, parent/key back-links of maps (C11)',
+           'repeated population may read another tree (root per call): a name that was a file may be a directory on the '
+           'way to an accepted file later (then it is a sub-map and holds no handle); outside the domain: a directory '
+           'that later is a file key, a file key that later is a directory from which nothing is taken',
+           'special files: FIFOs, as rule paths only (not inside populated directories)']
 
 
 def consts(valueerror=True, drops=True):
@@ -77,6 +81,8 @@ def check_and_replay(res, family):
         'scenarios': len(g.init), 'distinct_trees': len(roots), 'states_with_order_choice': multi,
         'distinct_rule_lists': len({sc['calls'] for sc in scenarios}),
         'multi_call_scenarios': sum(1 for sc in scenarios if len(sc['calls']) >= 2),
+        'overlay_scenarios': sum(1 for sc in scenarios if len(sc['trees']) >= 2),
+        'scenarios_with_a_fifo': sum(1 for sc in scenarios if any(t['specials'] for t in sc['trees'])),
         'fresh_map_scenarios': sum(1 for sc in scenarios if sc['fresh'])}
     res.cov['distinct_behaviours'] = res.cov.get('distinct_behaviours', 0) + len(g.init)
     return g
@@ -88,10 +94,11 @@ def sample(res, g, pick):
         if pick(sc) and g.out.get(i):
             _n, _a, d = g.out[i][0]
             post = g.states[d]
-            res.sample({'files': sorted(path_str(p) for p in sc['files']), 'dirs': sorted(path_str(p) for p in sc['dirs']),
+            res.sample({'trees': [{'files': sorted(path_str(p) for p in t['files']), 'dirs': sorted(path_str(p) for p in t['dirs']),
+                                   'fifos': sorted(path_str(p) for p in t['specials'])} for t in sc['trees']],
                         'ctor': {'nest': sc['cn'], 'trim': sc['ct']},
                         'calls': [{'add_rules': [(path_str(r['dir']), r['fac'], r['args'], sorted(r['exts'])) for r in c['add']],
-                                   'nest': c['n'], 'trim': c['t']} for c in sc['calls']],
+                                   'nest': c['n'], 'trim': c['t'], 'reads_tree': c['root']} for c in sc['calls']],
                         'after_call_1': {'exc': post['exc'], 'maps': sorted(path_str(m) for m in post['maps']),
                                          'layers': {path_str(m): [{'.'.join(k): '%s (call %d, rule %d)' % (path_str(h['p']), h['c'], h['r'])
                                                                   for k, h in tla.fmap(l).items()} for l in ls]
@@ -108,8 +115,9 @@ def run(res):
                 break
     else:
         g = check_and_replay(res, 'Sc_quick')
-    sample(res, g, lambda sc: len(sc['calls']) == 2 and len(sc['files']) >= 2)
-    sample(res, g, lambda sc: any(r['exts'] for c in sc['calls'] for r in c['add']) and len(sc['dirs']) >= 2)
+    sample(res, g, lambda sc: len(sc['calls']) == 2 and len(sc['trees'][0]['files']) >= 2)
+    sample(res, g, lambda sc: any(r['exts'] for c in sc['calls'] for r in c['add']) and len(sc['trees'][0]['dirs']) >= 2)
+    sample(res, g, lambda sc: len(sc['trees']) == 2 and len(sc['calls']) == 3)
     # non-vacuity: as implemented, the model violates the properties
     res.model_check('PopulatorMC', 'asimpl_D18', consts(valueerror=False), invariants=INVARIANTS, properties=PROPERTIES,
                     overrides={'Scenarios': 'Sc_tiny'}, expect_violation=('NotADirectoryIsValueError', 'ErrorsAsStated'), count=False, workers=4)
